@@ -172,6 +172,26 @@ Lp(U) == LowPcOf(U.ents[1].attrs)
 (* them between the layout and the write pass)                                  *)
 ListsResult(U, be) == LW!WriteUnit(U.rt, U.lt, LEnc(U.enc, be), Lp(U))
 
+(* Line programs.  An encoding may carry prog = the DWARF version of the unit's  *)
+(* line program (0 / absent: LineProgram::none).  The program has the primary   *)
+(* file and two added files; a FileIndex value [f |-> n] names the n-th added   *)
+(* file ([v |-> <<>>] is FileIndex(None)).  File tables are 1-based up to        *)
+(* version 4 (index 0 = the unit's own name) and 0-based with the primary file  *)
+(* at 0 in version 5, so the n-th added file has index n in either.             *)
+(* DEVIATION from the code: gimli writes FileId::raw(unit version), i.e. n - 1  *)
+(* for a version 5 unit whatever the version of the program; the model writes   *)
+(* the index that resolves to the file in the program's own table (n).  The two *)
+(* differ exactly for a version 5 unit with a version 2-4 program (notes/C11).  *)
+Prog(enc) == IF "prog" \in DOMAIN enc THEN enc.prog ELSE 0
+HasFile(val) == val.k = "FileIndex" /\ "f" \in DOMAIN val
+FileNames == <<<<102, 105, 114, 115, 116, 46, 99>>, <<115, 101, 99, 111, 110, 100, 46, 99>>>>     \* "first.c", "second.c"
+(* Unit::line_program_in_use: some entry (attached or not) holds FileIndex(Some) *)
+ProgInUse(U) == Prog(U.enc) # 0 /\ \E e \in DOMAIN U.ents : \E i \in DOMAIN U.ents[e].attrs : HasFile(U.ents[e].attrs[i].val)
+(* LineProgram::write refuses a version 5 program for an older unit *)
+ProgErr(U) == ProgInUse(U) /\ U.enc.version < 5 /\ Prog(U.enc) >= 5
+(* the pair for which the code and the model disagree: an error is acceptable too *)
+ProgMismatch(U) == ProgInUse(U) /\ U.enc.version >= 5 /\ Prog(U.enc) < 5
+
 (* AttributeValue::form *)
 Form(val, enc) ==
     LET k == val.k IN
@@ -230,7 +250,7 @@ Emit(val, enc, cx) ==
       [] k = "Sdata" -> OkF(FRaw(SLeb(val.v)))
       [] k = "ImplicitConst" -> IF enc.version >= 5 THEN OkF(<<>>) ELSE OkF(FRaw(SLeb(val.v)))
       [] k \in ConstKinds \cup {"Udata"} -> OkF(FRaw(ULeb(val.v)))
-      [] k = "FileIndex" -> OkF(FRaw(<<0>>))
+      [] k = "FileIndex" -> OkF(FRaw(<<IF HasFile(val) THEN val.f ELSE 0>>))
       [] k = "Exprloc" -> IF HasOps(val)
                           THEN LET r == OpsEmit(val.ops, enc, cx) IN
                                IF r.err # "" THEN r ELSE OkF(FRaw(ULebNat(FLen(r.fs))) \o r.fs)
@@ -269,7 +289,7 @@ Meaning(val, enc, pos, u, cx, be) ==
       [] k = "ImplicitConst" -> IF enc.version >= 5 THEN [implicit |-> val.v] ELSE [sdata |-> val.v]
       [] k = "Udata" -> [udata |-> val.v]
       [] k \in ConstKinds -> [const |-> k, v |-> val.v]
-      [] k = "FileIndex" -> [file |-> Zero(8)]
+      [] k = "FileIndex" -> IF HasFile(val) THEN [file |-> Nat8(val.f), path |-> FileNames[val.f]] ELSE [file |-> Zero(8)]
       [] k = "Exprloc" -> IF HasOps(val) THEN [expr |-> Flat(OpsEmit(val.ops, enc, cx).fs, be)] ELSE [expr |-> val.b]
       [] k = "Flag" -> [flag |-> val.v]
       [] k = "FlagPresent" -> [flag |-> TRUE]
@@ -437,15 +457,17 @@ WriteResultX(D, be, bytes) ==
                                    IF e <= Len(D.units[v].ents) /\ Ls[v].offs[e] # 0 THEN Nat8(starts[v] + Ls[v].offs[e]) ELSE <<>>]],
                     stroff |-> [s \in Range(strtab) |-> StrOffset(strtab, s, 1)],
                     lstroff |-> [s \in Range(lstrtab) |-> StrOffset(lstrtab, s, 1)],
-                    lineprog |-> FALSE, lenc |-> LEnc(D.units[u].enc, be), lp |-> Lp(D.units[u])]
+                    lineprog |-> ProgInUse(D.units[u]), lenc |-> LEnc(D.units[u].enc, be), lp |-> Lp(D.units[u])]
         body == [u \in 1..nu |->
-                   IF ~VersionOk(D.units[u].enc) THEN ErrF("UnsupportedVersion")
+                   IF ProgErr(D.units[u]) THEN ErrF("IncompatibleLineProgramEncoding")    \* the program is written first
+                   ELSE IF ~VersionOk(D.units[u].enc) THEN ErrF("UnsupportedVersion")
                    ELSE IF Ls[u].err # "" THEN ErrF(Ls[u].err)
                    ELSE IF ~ListsResult(D.units[u], be).ok THEN ErrF(ListsResult(D.units[u], be).err)
                    ELSE EmitEntry(Reordered(D.units[u]), 1, Ls[u], cxOf(u, FALSE))]
         (* errors raised while the units are written, before the cross-unit fix-ups *)
         early == [u \in 1..nu |->
-                   IF ~VersionOk(D.units[u].enc) THEN ErrF("UnsupportedVersion")
+                   IF ProgErr(D.units[u]) THEN ErrF("IncompatibleLineProgramEncoding")
+                   ELSE IF ~VersionOk(D.units[u].enc) THEN ErrF("UnsupportedVersion")
                    ELSE IF Ls[u].err # "" THEN ErrF(Ls[u].err)
                    ELSE IF ~ListsResult(D.units[u], be).ok THEN ErrF(ListsResult(D.units[u], be).err)
                    ELSE EmitEntry(Reordered(D.units[u]), 1, Ls[u], cxOf(u, TRUE))]
@@ -484,9 +506,11 @@ RECURSIVE Apply(_, _, _)
 Apply(D, calls, i) == IF i > Len(calls) THEN D ELSE Apply(ApplyCall(D, calls[i]), calls, i + 1)
 Start(encs) == [units |-> [u \in 1..Len(encs) |-> NewUnit(encs[u])], strs |-> <<>>, lstrs |-> <<>>]
 
-(* the writer removes DW_AT_stmt_list from a root without line program and  *)
-(* refuses LineProgramRef elsewhere                                         *)
-Normalise(D) == [D EXCEPT !.units = [u \in DOMAIN D.units |-> DeleteAttr(D.units[u], 1, "DW_AT_stmt_list")]]
+(* the writer sets DW_AT_stmt_list on the root when the line program is in   *)
+(* use, removes it otherwise, and refuses LineProgramRef elsewhere          *)
+Normalise(D) == [D EXCEPT !.units = [u \in DOMAIN D.units |->
+                    IF ProgInUse(D.units[u]) THEN SetAttr(D.units[u], 1, "DW_AT_stmt_list", [k |-> "LineProgramRef"])
+                    ELSE DeleteAttr(D.units[u], 1, "DW_AT_stmt_list")]]
 
 
 (* the stem lemma of the two-pass layout: predicted size = emitted length *)
